@@ -67,6 +67,10 @@ impl AsyncRead for Sock {
 
 impl AsyncWrite for Sock {
     fn poll_write(self: Pin<&mut Self>, _cx: &mut Context<'_>, buf: &[u8]) -> Poll<std::io::Result<usize>> {
+        // a peer that never stops writing is cut off (and seen as such in the log) instead of filling the memory
+        if self.tx.log_len() > 64 << 20 {
+            return Poll::Ready(Err(std::io::Error::new(std::io::ErrorKind::BrokenPipe, "runaway writer")));
+        }
         self.tx.push(buf);
         Poll::Ready(Ok(buf.len()))
     }
